@@ -21,7 +21,8 @@ def snake(s):
 
 # ------------------------------------------------------------------ APIs
 SHAPES = ["scalars", "enums", "nested", "toplevel_msg", "oneof_toplevel_msg", "deep_toplevel", "repeated_msg", "map_required",
-          "msg_no_required", "oneof_msg_no_required", "oneof_scalar", "oneof_msg", "oneof_enum", "repeated_scalar", "repeated_enum",
+          "msg_no_required", "oneof_msg_no_required", "same_type_twice", "same_type_single_repeated", "same_type_oneof_required",
+          "same_type_two_paths", "oneof_scalar", "oneof_msg", "oneof_enum", "repeated_scalar", "repeated_enum",
           "resource_ref", "wkt", "bytes", "deep", "optional", "two_oneofs", "required_in_oneof"]
 FORMS = ["unary", "paged", "lro", "server_stream", "client_stream", "bidi", "void"]
 
@@ -78,6 +79,25 @@ def add_shape(api, f, req, shape, n, r):
         sub = f.message(f"{req.proto.name}Blob"); sub.field("text", 1, "string")
         req.field("blob", n, sub.fqn, oneof="content"); n += 1
         req.field("uri", n, "string", oneof="content"); n += 1
+    elif shape == "same_type_twice":          # two REQUIRED message fields of one type
+        loc = f.message(f"{req.proto.name}Location"); loc.field("uri", 1, "string", required=True).field("region", 2, "string")
+        req.field("source", n, loc.fqn, required=True); n += 1
+        req.field("destination", n, loc.fqn, required=True); n += 1
+    elif shape == "same_type_single_repeated":  # a REQUIRED singular and a REQUIRED repeated field of one type
+        part = f.message(f"{req.proto.name}Part"); part.field("key", 1, "string", required=True)
+        req.field("main_part", n, part.fqn, required=True); n += 1
+        req.field("parts", n, part.fqn, required=True, repeated=True); n += 1
+    elif shape == "same_type_oneof_required":   # the first member of a oneof and a REQUIRED field of one type
+        tgt = f.message(f"{req.proto.name}Target"); tgt.field("id", 1, "int64", required=True)
+        req.field("by_target", n, tgt.fqn, oneof="where"); n += 1
+        req.field("by_label", n, "string", oneof="where"); n += 1
+        req.field("fallback", n, tgt.fqn, required=True); n += 1
+    elif shape == "same_type_two_paths":        # one type reached through two different nesting paths
+        st = f.message(f"{req.proto.name}Stamp"); st.field("code", 1, "string", required=True)
+        le = f.message(f"{req.proto.name}Left"); le.field("stamp", 1, st.fqn, required=True)
+        ri = f.message(f"{req.proto.name}Right"); ri.field("stamp", 1, st.fqn, required=True).field("seal", 2, "bool", required=True)
+        req.field("left", n, le.fqn, required=True); n += 1
+        req.field("right", n, ri.fqn, required=True); n += 1
     elif shape == "deep":
         a = req.nested("Outer"); b = a.nested("Inner"); c = b.nested("Core")
         c.field("id", 1, "string", required=True)
